@@ -1146,15 +1146,47 @@ fn gen_mono(r: &mut Rng, n: usize, ni: usize, depth: u32) -> E {
     E::If(Box::new(E::In(r.usize(ni))), Box::new(gen_mono(r, n, ni, depth - 1)), Box::new(gen_mono(r, n, ni, depth - 1)))
 }
 
+fn strip_calls(e: &mut E) {
+    match e {
+        E::Call(_) => *e = E::C(5),
+        E::BOr(a, b) | E::BAnd(a, b) => {
+            strip_calls(a);
+            strip_calls(b);
+        }
+        E::If(_, a, b) => {
+            strip_calls(a);
+            strip_calls(b);
+        }
+        _ => {}
+    }
+}
+
+thread_local! {
+    /// restriction of the cyclic generator to some flavours (0 monotone fixpoint, 1 fallback,
+    /// 2 with no-recovery nodes, 3 non-monotone, 4 acyclic feeders + fixpoint); empty = all
+    pub static CYCLE_FLAVOURS: std::cell::RefCell<Vec<u8>> = const { std::cell::RefCell::new(Vec::new()) };
+}
+
 pub fn gen_cycle_case(r: &mut Rng) -> Case {
     let n = 2 + r.usize(5);
     let mut prog = Prog::empty();
     prog.ninputs = 2 + r.usize(3);
     // flavour: 0 monotone fixpoint (C12), 1 fallback (C13), 2 with a no-recovery node (C14),
     // 3 non-monotone / diverging (C15)
-    let flavour = [0, 0, 0, 1, 1, 2, 3][r.usize(7)];
+    let allowed = CYCLE_FLAVOURS.with(|f| f.borrow().clone());
+    let flavour = if allowed.is_empty() { [0, 0, 0, 1, 1, 2, 3, 4, 4][r.usize(9)] } else { allowed[r.usize(allowed.len())] };
+    let nplain = if flavour == 4 { 1 + r.usize(2) } else { 0 };
     for q in 0..n {
         let (kind, body) = match flavour {
+            // finalised acyclic functions feeding a fixpoint cycle (C12: incremental history)
+            4 if q < nplain => {
+                let mut e = gen_mono(r, q.max(1), prog.ninputs, 2);
+                if q == 0 {
+                    strip_calls(&mut e);
+                }
+                (Kind::Plain, e)
+            }
+            4 => (Kind::Fix, gen_mono(r, n, prog.ninputs, 3)),
             0 => ([Kind::Fix, Kind::FixJoin][r.usize(2)], gen_mono(r, n, prog.ninputs, 3)),
             1 => (Kind::Fb, gen_mono(r, n, prog.ninputs, 3)),
             2 => (if q == 0 || r.chance(1, 4) { Kind::NoCyc } else { Kind::Fix }, gen_mono(r, n, prog.ninputs, 3)),
